@@ -660,6 +660,29 @@ def run(ctx):
                 flips += 1
     ctx.extra["tie_observation"] = (f"{flips} Distancevel configurations with a component exactly at L/2 change sign when one atom is "
                                     "moved by one box vector (theorem image_shift_invariant_tie_counterexample); not counted as a failure")
+    # observation (not a failure; reported for a decision): Path.reverse(order_function) recomputes the
+    # orders of velocity-dependent parameters with order_function.calculate(phasepoint), which reads
+    # system.vel and ignores the vel_rev flag that reverse() has just toggled.
+    try:
+        from infretis.classes.path import Path
+        o = opm.Velocity(0, "x")
+        pth = Path(maxlen=10)
+        for k in range(3):
+            sy = System()
+            sy.pos = np.array([[0.0, 0, 0], [1.0 + k, 0, 0]])
+            sy.vel = np.array([[1.0 + k, 0, 0], [2.0, 0, 0]])
+            sy.box = None
+            sy.order = o.calculate(sy)
+            pth.append(sy)
+        rv = pth.reverse(o)
+        fw = [pp.order[0] for pp in pth.phasepoints][::-1]
+        bw = [pp.order[0] for pp in rv.phasepoints]
+        ctx.extra["path_reverse_observation"] = {
+            "forward_orders_reversed": fw, "orders_after_Path.reverse": bw,
+            "sign_changed": all(abs(a + b) < 1e-12 for a, b in zip(fw, bw)),
+            "note": "Velocity(0,'x') on a 3-frame path; the classes themselves change sign under v -> -v (theorem velocity_reversal_sign)"}
+    except Exception as e:  # noqa: BLE001
+        ctx.extra["path_reverse_observation"] = "probe failed: " + err_kind(e)
     ctx.assumptions += [
         "system.pos/vel are float (N,3) arrays, system.box is None or a 1-D float array (the default 3x3 zero box of a bare System() is not modelled)",
         "sqrt/arctan2/rad2deg/sin/cos and the final quotients are applied outside the Lean model (same formulas in floating point, compared at rel 1e-9; angles through sin/cos)",
